@@ -413,7 +413,7 @@ func genTri(t *rapid.T) triCase {
 			d = kit.V3{0.3, 0.4, 0.5}
 		}
 		k := gen.LogF(t, 0.3, 3, "k")
-		c.Rays = append(c.Rays, ray3{O: o, D: d.Unit().Scale(gen.LogF(t, 1e-3, 1e3, "ds"))})
+		c.Rays = append(c.Rays, ray3{O: o, D: d.Unit().Scale(dirScale(t))})
 		c.Segs = append(c.Segs, ray3{O: o, D: d.Scale(k)})
 		c.Ball = append(c.Ball, ray3{O: o, D: kit.V3{gen.LogF(t, 0.05, 20, "rf"), 0, 0}})
 	}
@@ -518,7 +518,7 @@ func genSeg(t *rapid.T) segCase {
 		if d.Norm() < 1e-3 {
 			d = kit.V2{0.3, 0.4}
 		}
-		c.Rays = append(c.Rays, ray2{O: o, D: d.Unit().Scale(gen.LogF(t, 1e-3, 1e3, "ds"))})
+		c.Rays = append(c.Rays, ray2{O: o, D: d.Unit().Scale(dirScale(t))})
 		c.Ball = append(c.Ball, ray2{O: o, D: kit.V2{gen.LogF(t, 0.05, 20, "rf"), 0}})
 	}
 	return c
@@ -597,6 +597,16 @@ type meshCase struct {
 	Delta  float64      `json:"delta"`
 	Rays   []ray3       `json:"rays"`
 	Balls  []ray3       `json:"balls"`
+	// Shapes of the segment / box / triangle queries against mesh colliders: each entry gives three points
+	// relative to the mesh (unit = mesh size); segment = first two, box = bounding box of the first two,
+	// triangle = all three.  Axis-aligned variants (flat query boxes) are derived by copying coordinates.
+	Qs []query3 `json:"qs,omitempty"`
+}
+
+type query3 struct {
+	Kind string    `json:"kind"` // segment rect tri
+	P    [3]kit.V3 `json:"p"`
+	Flat int       `json:"flat"` // 0: generic; 1..3: all points share this coordinate (axis-aligned planar query)
 }
 
 func genMeshCase(t *rapid.T) meshCase {
@@ -625,7 +635,134 @@ func genMeshCase(t *rapid.T) meshCase {
 	for i := 0; i < 5; i++ {
 		c.Balls = append(c.Balls, ray3{O: ctr.Add(gen.Vec3(t, 1.5*size, "bc")), D: kit.V3{gen.LogF(t, 0.05, 20, "rf"), 0, 0}})
 	}
+	if c.Tree != nil {
+		for i := 0; i < 6; i++ {
+			q := query3{Kind: rapid.SampledFrom([]string{"segment", "rect", "tri", "tri"}).Draw(t, "qkind")}
+			reach := gen.LogF(t, 0.05, 1.2, "qreach")
+			q.P[0] = gen.Vec3(t, 0.7, "q0")
+			q.P[1] = q.P[0].Add(gen.Vec3(t, reach, "q1"))
+			q.P[2] = q.P[0].Add(gen.Vec3(t, reach, "q2"))
+			if q.Kind == "tri" && rapid.IntRange(0, 2).Draw(t, "qflat") == 0 {
+				q.Flat = rapid.IntRange(1, 3).Draw(t, "qaxis")
+			}
+			c.Qs = append(c.Qs, q)
+		}
+	}
 	return c
+}
+
+// pierce: does the segment a-b cross the interior of triangle t?  clear: how far the decision is from changing, as
+// a length (distance of the nearer end point from the face's plane when both ends are on one side; otherwise the
+// smaller of the end points' distances from the plane and the crossing point's distance from the face's edges).
+func pierce(a, b kit.V3, t kit.Tri) (hit bool, clear float64) {
+	n := t.Normal()
+	nn := n.Norm()
+	if nn == 0 {
+		return false, 0
+	}
+	n = n.Scale(1 / nn)
+	da, db := n.Dot(a.Sub(t[0])), n.Dot(b.Sub(t[0]))
+	if (da > 0) == (db > 0) {
+		return false, math.Min(math.Abs(da), math.Abs(db))
+	}
+	p := a.Lerp(b, da/(da-db))
+	// distance of p (in the plane) from the three edge lines, positive inside
+	in := math.Inf(1)
+	for i := 0; i < 3; i++ {
+		e := t[(i+1)%3].Sub(t[i])
+		in = math.Min(in, n.Cross(e).Unit().Dot(p.Sub(t[i])))
+	}
+	clear = math.Min(math.Abs(in), math.Min(math.Abs(da), math.Abs(db)))
+	return in > 0, clear
+}
+
+// meshQueryRef decides whether the query shape meets the surface (some face), in general position: two triangles
+// (or a face and a box face) intersect iff an edge of one pierces the other; a segment meets a face iff it pierces it.
+func meshQueryRef(q query3, pts [3]kit.V3, tris []kit.Tri, size float64) (touch bool, generic bool) {
+	tol := 1e-7 * size
+	generic = true
+	seg := func(a, b kit.V3) {
+		for _, t := range tris {
+			h, cl := pierce(a, b, t)
+			if cl < tol {
+				generic = false
+			}
+			if h {
+				touch = true
+			}
+		}
+	}
+	face := func(f kit.Tri) {
+		for _, t := range tris {
+			for k := 0; k < 3; k++ {
+				h, cl := pierce(t[k], t[(k+1)%3], f)
+				if cl < tol {
+					generic = false
+				}
+				if h {
+					touch = true
+				}
+			}
+		}
+	}
+	switch q.Kind {
+	case "segment":
+		seg(pts[0], pts[1])
+	case "tri":
+		f := kit.Tri{pts[0], pts[1], pts[2]}
+		for k := 0; k < 3; k++ {
+			seg(f[k], f[(k+1)%3])
+		}
+		face(f)
+	case "rect":
+		var lo, hi kit.V3
+		for a := 0; a < 3; a++ {
+			lo[a], hi[a] = math.Min(pts[0][a], pts[1][a]), math.Max(pts[0][a], pts[1][a])
+		}
+		c := func(i int) kit.V3 {
+			p := lo
+			for a := 0; a < 3; a++ {
+				if i>>uint(a)&1 == 1 {
+					p[a] = hi[a]
+				}
+			}
+			return p
+		}
+		// twelve box edges against the faces, the faces' edges against the six box faces (two triangles each);
+		// a face entirely inside the box: one of its vertices is inside
+		for i := 0; i < 8; i++ {
+			for a := 0; a < 3; a++ {
+				if i>>uint(a)&1 == 0 {
+					seg(c(i), c(i|1<<uint(a)))
+				}
+			}
+		}
+		quads := [][4]int{{0, 1, 3, 2}, {4, 5, 7, 6}, {0, 1, 5, 4}, {2, 3, 7, 6}, {0, 2, 6, 4}, {1, 3, 7, 5}}
+		for _, qd := range quads {
+			face(kit.Tri{c(qd[0]), c(qd[1]), c(qd[2])})
+			face(kit.Tri{c(qd[0]), c(qd[2]), c(qd[3])})
+		}
+		for _, t := range tris {
+			for _, v := range t {
+				in, near := true, false
+				for a := 0; a < 3; a++ {
+					if v[a] < lo[a] || v[a] > hi[a] {
+						in = false
+					}
+					if math.Abs(v[a]-lo[a]) < tol || math.Abs(v[a]-hi[a]) < tol {
+						near = true
+					}
+				}
+				if near {
+					generic = false
+				}
+				if in {
+					touch = true
+				}
+			}
+		}
+	}
+	return
 }
 
 func checkMeshCase(c meshCase, o *kit.Obs) error {
@@ -841,6 +978,60 @@ func checkMeshCase(c meshCase, o *kit.Obs) error {
 			return fmt.Errorf("%s collider: SphereCollision(%v, %g) = %v but the surface is %g away", c.Build, b.O, rad, got, d)
 		}
 	}
+	// segment, box and triangle queries: 'touching' exactly when the query shape meets some face
+	mid := m3.V3(mesh.Min()).Mid(m3.V3(mesh.Max()))
+	for _, q := range c.Qs {
+		var pts [3]kit.V3
+		for i := range pts {
+			pts[i] = mid.Add(q.P[i].Scale(size))
+			if q.Flat > 0 {
+				pts[i][q.Flat-1] = mid[q.Flat-1] + q.P[0][q.Flat-1]*size
+			}
+		}
+		if q.Kind == "tri" && (kit.Tri{pts[0], pts[1], pts[2]}).Area() < 1e-4*size*size {
+			continue
+		}
+		want, generic := meshQueryRef(q, pts, tris, size)
+		if !generic {
+			o.Skip("query-not-in-general-position")
+			continue
+		}
+		o.Label("query:" + q.Kind)
+		if q.Flat > 0 {
+			o.Label("query:axis-aligned-planar-triangle")
+		}
+		if want {
+			o.NonTrivial()
+		}
+		switch q.Kind {
+		case "segment":
+			sc, ok := coll.(model3d.SegmentCollider)
+			if !ok {
+				continue
+			}
+			if got := sc.SegmentCollision(model3d.NewSegment(m3.C3(pts[0]), m3.C3(pts[1]))); got != want {
+				return fmt.Errorf("%s collider over %d faces: SegmentCollision(%v - %v) = %v, but brute force over the faces says %v", c.Build, len(tris), pts[0], pts[1], got, want)
+			}
+		case "rect":
+			rc, ok := coll.(model3d.RectCollider)
+			if !ok {
+				continue
+			}
+			r := model3d.NewRect(m3.C3(pts[0]).Min(m3.C3(pts[1])), m3.C3(pts[0]).Max(m3.C3(pts[1])))
+			if got := rc.RectCollision(r); got != want {
+				return fmt.Errorf("%s collider over %d faces: RectCollision(%v, %v) = %v, but brute force over the faces says %v", c.Build, len(tris), r.MinVal, r.MaxVal, got, want)
+			}
+		case "tri":
+			tc, ok := coll.(model3d.TriangleCollider)
+			if !ok {
+				continue
+			}
+			segs := tc.TriangleCollisions(&model3d.Triangle{m3.C3(pts[0]), m3.C3(pts[1]), m3.C3(pts[2])})
+			if (len(segs) > 0) != want {
+				return fmt.Errorf("%s collider over %d faces: TriangleCollisions(%v) reports %d intersection segments, but brute force over the faces says touching = %v", c.Build, len(tris), pts, len(segs), want)
+			}
+		}
+	}
 	return nil
 }
 
@@ -918,4 +1109,14 @@ func TestProp(t *testing.T) {
 		kit.Clause[meshCase]{Name: "C07/mesh-and-wrappers", Quick: 1500, Thorough: 40000, Gen: genMeshCase, Check: checkMeshCase},
 		kit.Clause[xformCase]{Name: "C07/transformed/contract", Quick: 5000, Thorough: 120000, Gen: genXform, Check: checkXform},
 	)
+}
+
+// dirScale: the length of a ray direction.  Mostly moderate, sometimes extreme: a collision test must not depend
+// on the length of the direction (the parameter scales inversely), so guards against parallel rays have to be
+// relative to it.
+func dirScale(t *rapid.T) float64 {
+	if rapid.IntRange(0, 3).Draw(t, "ds.extreme") == 0 {
+		return gen.LogF(t, 1e-12, 1e12, "ds.wide")
+	}
+	return gen.LogF(t, 1e-3, 1e3, "ds")
 }
